@@ -316,7 +316,7 @@ def main(ctx):
         ctx.broken.append("harness-build: " + str(e)[:500])
         return
     cases, n_exh = gen_cases(ctx)
-    vlib.seq_correspondence(ctx, hcmd, dcmd, cases, nontrivial=nontrivial, keep_prefix=1, judge=judge)
+    vlib.seq_correspondence_batched(ctx, hcmd, dcmd, cases, batch=150000, nontrivial=nontrivial, keep_prefix=1, judge=judge)
     ctx.cov["exhaustive"] = True
     ctx.cov["exhaustive_cases"] = n_exh
     ctx.cov["explanation"] = ("exhaustive=true refers to the bounded operation-sequence space described in rule "
